@@ -2,6 +2,7 @@ import Lean.Data.Json
 import DurableModel
 import DriverLib.SerdesGlue
 import DriverLib.BatcherGlue
+import DriverLib.PureGlue
 /-! JSON glue between the line protocol and the model's executable definitions (trusted). -/
 open Lean
 
@@ -85,6 +86,7 @@ def handle (c : String) (j : Json) : Json :=
   else if c.startsWith "lock." then handleLock c j
   else if c.startsWith "serdes." then SerdesGlue.handle c j
   else if c.startsWith "batcher." then BatcherGlue.handle c j
+  else if c.startsWith "policy." || c.startsWith "strategy." || c.startsWith "outcome." then PureGlue.handle c j
   else err ("unknown-component " ++ c)
 
 end DriverLib
